@@ -10,6 +10,7 @@ import (
 	"os"
 	"os/exec"
 	"runtime"
+	"strings"
 	"sync"
 	"time"
 )
@@ -173,19 +174,72 @@ func (p *Pool) roundTrip(w *worker, in any) (json.RawMessage, error) {
 		line, err := w.out.ReadBytes('\n')
 		ch <- res{line, err}
 	}()
-	select {
-	case r := <-ch:
-		if r.err != nil {
-			if w.err != nil {
-				_ = w.cmd.Wait()
-				return nil, &DiedError{Stderr: w.err.String(), Exit: w.cmd.ProcessState.ExitCode()}
-			}
-			return nil, fmt.Errorf("worker died: %w", r.err)
-		}
-		return json.RawMessage(r.line), nil
-	case <-time.After(p.Guard):
-		return nil, ErrHung
+	// The guard is not a wall-clock deadline (a loaded machine must never produce a verdict):
+	// a task is declared hung when its worker has been *idle* for a whole guard period
+	// (blocked: less than 2% of it spent on the CPU), or when it has *burnt* 15 guard periods of
+	// CPU time on this one task (spinning). A worker that is merely slow is waited for.
+	start := time.Now()
+	cpu0 := procCPU(w.cmd.Process.Pid)
+	type sample struct {
+		at  time.Time
+		cpu time.Duration
 	}
+	samples := []sample{{start, cpu0}}
+	tick := time.NewTicker(p.Guard / 8)
+	defer tick.Stop()
+	for {
+		select {
+		case r := <-ch:
+			if r.err != nil {
+				if w.err != nil {
+					_ = w.cmd.Wait()
+					return nil, &DiedError{Stderr: w.err.String(), Exit: w.cmd.ProcessState.ExitCode()}
+				}
+				return nil, fmt.Errorf("worker died: %w", r.err)
+			}
+			return json.RawMessage(r.line), nil
+		case now := <-tick.C:
+			cpu := procCPU(w.cmd.Process.Pid)
+			if cpu < 0 || cpu0 < 0 {
+				// no /proc: fall back to a generous wall-clock guard
+				if now.Sub(start) >= 10*p.Guard {
+					return nil, ErrHung
+				}
+				continue
+			}
+			samples = append(samples, sample{now, cpu})
+			for len(samples) > 1 && now.Sub(samples[1].at) >= p.Guard {
+				samples = samples[1:]
+			}
+			if w := now.Sub(samples[0].at); w >= p.Guard && cpu-samples[0].cpu < w/50 {
+				return nil, ErrHung
+			}
+			if cpu-cpu0 >= 15*p.Guard {
+				return nil, ErrHung
+			}
+		}
+	}
+}
+
+// procCPU returns the CPU time (user + system) a process has used, or -1.
+func procCPU(pid int) time.Duration {
+	b, err := os.ReadFile(fmt.Sprintf("/proc/%d/stat", pid))
+	if err != nil {
+		return -1
+	}
+	// fields after the command name, which is in parentheses and may contain spaces
+	i := strings.LastIndexByte(string(b), ')')
+	if i < 0 {
+		return -1
+	}
+	f := strings.Fields(string(b[i+1:]))
+	if len(f) < 13 {
+		return -1
+	}
+	var ut, st int64
+	fmt.Sscan(f[11], &ut)
+	fmt.Sscan(f[12], &st)
+	return time.Duration(ut+st) * (time.Second / 100) // USER_HZ is 100 on Linux
 }
 
 // Submit queues a task; out is called from a pool goroutine.
